@@ -53,6 +53,8 @@ def summarize(ctx, results, mode):
         ctx.extra["archive_feature_totals"] = agg
         ctx.extra["archives_with_multipack_group"] = sum(1 for r in ok if r["stats"].get("multipack", 0) > 0)
         ctx.extra["archives_with_raw_segments"] = sum(1 for r in ok if r["stats"].get("rawsegs", 0) > 0)
+        if not rej and not failed_create and ctx.extra["archives_with_multipack_group"] == 0:
+            raise C.ToolError("vacuity guard: no generated archive has a group with >= 2 packs (the id -> pack addressing rules were never exercised)")
     else:
         ctx.nontrivial = len({r["id"] for r in ok if r["case"]["samples"] >= 2})
         ctx.rule = ("one case = one generated collection x parameter set incl. k up to 32 and segment size up to 60000; non-trivial = archive with >= 2 samples "
